@@ -93,6 +93,36 @@ def superpositionB (x : Graph) (its : Graph) : Bool :=
   x.nodeIds.all fun a => x.nodeIds.all fun b =>
     labelsBetween its (a + 1) (b + 1) == (labelsBetween x a b).map liftLabel
 
+/-! ### the two halves, label by label (direct check of `split_its` outputs) -/
+
+/-- reactant-side labels of a bond with label `l` -/
+def splitG : Label → List Label
+  | .p a _ => if a = 0 then [] else [.s a]
+  | l => [l]
+
+/-- product-side labels of a bond with label `l` -/
+def splitH : Label → List Label
+  | .p _ b => if b = 0 then [] else [.s b]
+  | l => [l]
+
+/-- what a bond of a molecular half may carry: a scalar order ≠ 0 (no tuple label, no missing label) -/
+def scalarNZ : Label → Bool
+  | .s o => o != 0
+  | _ => false
+
+/-- one half `g` of a sample against the expanded pattern `x`: a closed simple graph whose every bond
+    label is a non-zero scalar, and between any two pattern nodes EXACTLY the labels that side keeps
+    of the pattern's labels there (`side = splitG` / `splitH`): no unformed / broken bond left behind
+    under its tuple label, no bond without label, no extra bond, no missing bond.  Nothing here goes
+    through `get_its`, `orderOf` or `getD`: the labels are compared as they are. -/
+def halfB (side : Label → List Label) (x g : Graph) : Bool :=
+  !g.multi && closedB g && g.edges.all (fun e => scalarNZ e.2.2.2) &&
+  x.nodeIds.all fun a => x.nodeIds.all fun b =>
+    labelsBetween g a b == (labelsBetween x a b).flatMap side
+
+/-- both halves of a sample, directly against the model's split of the pattern's labels -/
+def halvesB (x g h : Graph) : Bool := halfB splitG x g && halfB splitH x h
+
 /-! ### balanced and mapped -/
 
 /-- both halves have the pattern's nodes, its symbols, and `aam = id + 1` -/
